@@ -119,6 +119,7 @@ type pathState struct {
 	realDigits   bool
 	csvRecords   [][]value
 	csvModel     bool
+	lastRegexp   string
 	hashBits     int
 	hashAllowed  []uint64
 }
